@@ -21,6 +21,8 @@ def family(prog, name, tier, taint_mode):
         return AR.index_cases(prog, 3 if tier == "quick" else 4, taint_mode)
     if name == "misc":
         return AR.misc_index_cases(prog, taint_mode)
+    if name == "patterns":
+        return AR.pattern_mix_cases(prog, "concrete")
     if name == "illformed":
         return AR.illformed_cases(prog, taint_mode)
     if name == "permuted":
@@ -40,7 +42,7 @@ def run(prog, rep):
                ("stack", "result"): "C05.target-after-assignment"}
     prog.method("FlodymArray", "__setitem__")
     prog.method("FlodymArray", "set_values")
-    run_array_property(prog, rep, "C05", ["index", "misc", "illformed", "permuted", "index@uniform", "permuted@uniform", "misc@uniform"], aspects)
+    run_array_property(prog, rep, "C05", ["index", "misc", "illformed", "permuted", "patterns", "index@uniform", "permuted@uniform", "misc@uniform"], aspects)
     rep.rules["C05.target-after-assignment"]["floor"] = 300
     rep.rules["C05.refusals"]["floor"] = 40
     rep.rules["C05.ndarray-copied"]["floor"] = 60
